@@ -301,6 +301,7 @@ fn judge_prefixes(c: Container, w: &World, idx: u64, fam: &str, t: &mut Tally) {
         Ok(Ok(got)) if compare(c, &texs, &got).is_none() => {}
         _ => t.violate(format!("rejected:{}", c.name()), format!("{}: the complete file is not read back correctly", what(built.bytes.len())), case_of(fam, idx)),
     }
+    vcore::alloc::reset_max();
     for cut in 0..built.bytes.len() {
         t.calls += 1;
         match read(c, &built.bytes[..cut]) {
@@ -318,6 +319,18 @@ fn judge_prefixes(c: Container, w: &World, idx: u64, fam: &str, t: &mut Tally) {
             }
             Ok(Err(_)) => t.class(if cut < must_fail_below { "prefix:err(payload-cut)" } else { "prefix:err(payloads-whole)" }),
         }
+    }
+    note_allocation(built.bytes.len(), t);
+}
+
+/// Observation only (C20 has no allocation clause): did any prefix make the parser request a
+/// single buffer far larger than the file?
+fn note_allocation(file_len: usize, t: &mut Tally) {
+    let max = vcore::alloc::max_request();
+    if max > (1 << 20) + 64 * file_len {
+        t.class("prefix:allocation-above-1MiB+64x-file(observation)");
+    } else {
+        t.class("prefix:allocations-proportionate(observation)");
     }
 }
 
@@ -376,6 +389,18 @@ fn run_case(tier: Tier, fam: &str, idx: u64, t: &mut Tally) {
 
 // ---------------------------------------------------------------------------------------
 
+/// Keep at most 8 recorded violations per signature, so that one noisy family cannot use up
+/// the overall cap and hide the signatures of the families after it.
+fn trim(t: &mut Tally) {
+    let mut kept: Vec<Violation> = Vec::new();
+    for v in std::mem::take(&mut t.violations) {
+        if kept.iter().filter(|k| k.sig == v.sig).count() < 8 {
+            kept.push(v);
+        }
+    }
+    t.violations = kept;
+}
+
 fn explore(ctx: &Ctx) -> Outcome {
     let tier = ctx.tier;
     let w = world(tier);
@@ -392,19 +417,35 @@ fn explore(ctx: &Ctx) -> Outcome {
             })
             .reduce(Tally::new, Tally::merge);
         fam_json.push(json!({"family": fam, "engine": "E2", "members": count, "completed": true}));
+        let mut t = t;
+        trim(&mut t);
         total.absorb(t);
+    }
+
+    // standing determinism check of the harness: the first cases of every family run twice
+    let mut machinery = Vec::new();
+    for (fam, count) in in_process_families(tier, ctx.is_checked()) {
+        let (mut a, mut b) = (Tally::new(), Tally::new());
+        for i in 0..count.min(1000) {
+            run_case(tier, &fam, i, &mut a);
+            run_case(tier, &fam, i, &mut b);
+        }
+        if a.classes != b.classes || a.violations.len() != b.violations.len() {
+            machinery.push(format!("family {} is not deterministic", fam));
+        }
     }
 
     // E3: every strict prefix of the scheduled files
     let fams: Vec<Family> = Container::ALL.iter().map(|c| Family::new(format!("pfx-{}", c.name()), w.prefix_files(*c))).collect();
     let args = vec!["--tier".to_string(), tier.name().to_string()];
-    let mut machinery = Vec::new();
     let mut extras = vec![];
     match isolate::sweep(&ctx.exe, &args, 16, &fams, 4, Duration::from_secs(60)) {
         Err(e) => machinery.push(format!("worker pool failed: {}", e)),
         Ok(res) => {
             let prefixes = res.tally.classes.get("prefix:bytes").copied().unwrap_or(0);
-            total.absorb(res.tally);
+            let mut rt = res.tally;
+            trim(&mut rt);
+            total.absorb(rt);
             for f in &res.fatals {
                 let (sig, summary) = isolate::describe_fatal(&format!("prefix-{}", f.family.trim_start_matches("pfx-")), &f.status);
                 total.cases += 1;
